@@ -46,7 +46,9 @@ def judge_larch(ctx, stream, seqs):
             if not ibody.startswith("ERR:improperlyConfigured") or iidx != want:
                 bad = f"sequence must be rejected with a configuration error at call {want}; implementation: {i}"
         elif s.startswith("OK"):
-            if not ibody.startswith("OK"):
+            if ibody.startswith("OK:MAPPING-DIFFERS") or ibody.startswith("OK:UNLISTABLE"):
+                bad = f"the accepted definition does not list the supplied layers / modules consistently (architecture[layer] vs layer_mapping): {ibody}"
+            elif not ibody.startswith("OK"):
                 bad = f"well-formed definition rejected: {i}"
             else:
                 ids = ";".join(l.split("~")[0] + "~" + ",".join(x[2:] for x in l.split("~")[1].split(",") if x) for l in ibody[3:].split(";") if l)
